@@ -114,6 +114,11 @@ def replay(case: dict) -> list[str]:
         chunks = dict(chunkings(noise, suf, True))[case["how"]]
         return hdlc_resync_errors(cfg, noise, suf, required(cfg, offs), chunks)
     noise = bytes.fromhex(case["noise"])
+    if case["reader"] == "p1cuts":
+        suf, msgs = p1_suffix(False)
+        S = noise + suf
+        cs = tuple(case["cuts"])
+        return p1_resync_errors(noise, msgs, [S[i:j] for i, j in zip((0,) + cs, cs + (len(S),))])
     suf, msgs = p1_suffix(case.get("big", False))
     if case.get("big"):
         return p1_resync_errors(noise, msgs, X.fixed(noise + suf, int(case["how"][5:])))
@@ -334,6 +339,50 @@ def _work_p_struct(task) -> core.Part:
     return p
 
 
+def junk_with_slash():
+    """Realistic junk that contains '/' lines which are not identification lines (terminal-server banners, paths, a
+    readout whose identification line was hit by noise), followed by ordinary lines."""
+    pool = P.readout_pool()
+    line = b"1-0:1.8.0(00000896.020*kWh)\r\n"
+    out = [("ser2net banner", b"ser2net port 2001 device /dev/ttyUSB0 [2400 N81] (Debian GNU/Linux)\r\n\r\n" + line),
+           ("path lines", b"/dev/ttyUSB0\r\n/x\r\n" + line * 2),
+           ("slash only lines", b"/\r\n//\r\n" + line)]
+    six = pool["six_crc"]
+    for i in range(1, 9):
+        for sub in (0x80, 0x2F, 0x21, 0x0A):
+            out.append((f"six_crc with identification octet {i} -> {sub:02x}", six[:i] + bytes([sub]) + six[i + 1:]))
+    out.append(("lower-case identification", b"/abc5xyz\r\n" + line * 3 + b"!\r\n"))
+    return out
+
+
+def _work_p_allcuts(task) -> core.Part:
+    """Every single cut and (for the short ones) every pair of cuts of junk-with-slash + suffix inside the junk and the
+    first readout: stale positions of a line buffer only show for particular chunk boundaries."""
+    lo, step, pairs = task
+    p = core.Part()
+    suf, msgs = p1_suffix(False)
+    for idx, (label, noise) in enumerate(junk_with_slash()):
+        if idx % step != lo:
+            continue
+        S = noise + suf
+        hi = len(noise) + len(msgs[0]) + 12
+        cutsets = [(c,) for c in range(1, hi)]
+        if pairs and len(noise) < 120:
+            cutsets += [(a, b) for a in range(1, hi) for b in range(a + 1, hi)]
+        for cs in cutsets:
+            chunks = [S[i:j] for i, j in zip((0,) + cs, cs + (len(S),))]
+            errs = p1_resync_errors(noise, msgs, chunks)
+            p.add("executions")
+            p.out("resynchronised" if not errs else "lost_readouts")
+            if errs:
+                p.viol("resync_p1", f"resync_p1:cuts:{label}:{cs}", f"{label}, chunks cut at {list(cs)}: {errs[0]}", {"reader": "p1cuts", "noise": noise.hex(), "cuts": list(cs)}, size=len(noise))
+        p.add("nontrivial")
+        if p.full("resync_p1"):
+            p.capped = True
+            break
+    return p
+
+
 def long_noises(reader: str, quick: bool):
     """Noise built by repeating a 1..2-token cycle of the C19 pattern alphabets until several KiB are fed: reaches the
     readers' overflow guards and counters (states that short noise cannot reach)."""
@@ -416,6 +465,8 @@ def main(run: core.Run) -> int:
     run.merge(par.pmap(_work_p_tokens, pt, seed=run.seed))
     npn = sum(len(r) for r in P.readout_pool().values()) + 5
     run.merge(par.pmap(_work_p_struct, [(lo, lo + 25) for lo in range(0, npn, 25)], seed=run.seed))
+    run.log("junk with '/' lines x every cut (pairs of cuts for the short ones)")
+    run.merge(par.pmap(_work_p_allcuts, [(i, 36, not q or i < 3) for i in range(36)], seed=run.seed))
     run.log("long periodic noise (several KiB) then clean suffix")
     run.merge(par.pmap(_work_long_noise, [(rd, q, i, 32) for rd in ("p1", "hdlc") for i in range(32)], seed=run.seed))
     tot = run.total
